@@ -19,6 +19,11 @@ Lemma embed_SWhile names k scope c b : embed_stmt names k scope (SWhile c b) =
   NFor (Some (embed (vnames names scope) c)) None None (embed_stmts names k scope b).
 Proof. reflexivity. Qed.
 
+Lemma embed_SFor names k scope e c p b : embed_stmt names k scope (SFor e c p b) =
+  NFor (Some (embed (vnames names (scope ++ [k])) c)) (Some (NVar (nth k names []) (embed (vnames names scope) e)))
+       (Some (embed_stmt names (S k) (scope ++ [k]) p)) (embed_stmts names (S k) (scope ++ [k]) b).
+Proof. reflexivity. Qed.
+
 Lemma wf_stmts_cons lp n s r : wf_stmts lp n (s :: r) = wf_stmt lp n s && wf_stmts lp (next_n n s) r.
 Proof. reflexivity. Qed.
 Lemma wf_SIf lp n c t e : wf_stmt lp n (SIf c t e) = wf n c && wf_stmts lp n t && wf_stmts lp n e.
@@ -26,6 +31,10 @@ Proof. reflexivity. Qed.
 Lemma wf_SIf1 lp n c t : wf_stmt lp n (SIf1 c t) = wf n c && wf_stmts lp n t.
 Proof. reflexivity. Qed.
 Lemma wf_SWhile lp n c b : wf_stmt lp n (SWhile c b) = wf n c && wf_stmts true n b.
+Proof. reflexivity. Qed.
+
+Lemma wf_SFor lp n e c p b : wf_stmt lp n (SFor e c p b) =
+  wf n e && wf (S n) c && is_simple p && wf_stmt lp (S n) p && wf_stmts true (S n) b.
 Proof. reflexivity. Qed.
 
 Lemma ndecls_cons s r : ndecls (s :: r) = nd s + ndecls r.
@@ -36,6 +45,10 @@ Lemma nd_SIf1 c t : nd (SIf1 c t) = ndecls t.
 Proof. reflexivity. Qed.
 Lemma nd_SWhile c b : nd (SWhile c b) = ndecls b.
 Proof. reflexivity. Qed.
+Lemma nd_SFor e c p b : nd (SFor e c p b) = S (ndecls b).
+Proof. reflexivity. Qed.
+Lemma nd_simple p : is_simple p = true -> nd p = 0.
+Proof. destruct p; try discriminate; reflexivity. Qed.
 Lemma next_scope_length k scope s : length (next_scope k scope s) = next_n (length scope) s.
 Proof. destruct s; cbn [next_scope next_n]; try reflexivity. rewrite app_length. cbn. lia. Qed.
 
@@ -49,6 +62,10 @@ Lemma sheight_SIf1 c b : sheight (SIf1 c b) = S (Nat.max (height c) (max_height 
 Proof. reflexivity. Qed.
 Lemma sheight_SWhile c b : sheight (SWhile c b) = S (Nat.max (height c) (max_height b)).
 Proof. reflexivity. Qed.
+Lemma sheight_SFor e c p b : sheight (SFor e c p b) = S (Nat.max (height e) (Nat.max (height c) (Nat.max (sheight p) (max_height b)))).
+Proof. reflexivity. Qed.
+Lemma sneed_SFor e c p b : sneed (SFor e c p b) = Nat.max (need e) (Nat.max (need c) (Nat.max (sneed p) (max_need b))).
+Proof. reflexivity. Qed.
 Lemma sneed_SIf c t e : sneed (SIf c t e) = Nat.max (need c) (Nat.max (max_need t) (max_need e)).
 Proof. reflexivity. Qed.
 Lemma sneed_SIf1 c b : sneed (SIf1 c b) = Nat.max (need c) (max_need b).
@@ -61,10 +78,11 @@ Lemma max_need_pos l : 1 <= max_need l.
 Proof. induction l as [|s r IH]; [cbn; lia|rewrite max_need_cons; lia]. Qed.
 Lemma sneed_pos s : 1 <= sneed s.
 Proof.
-  destruct s as [e|i e|i o e|i up|e|c t e|c t|c b| |]; try (cbn [sneed]; apply need_pos); try (cbn [sneed]; lia).
+  destruct s as [e|i e|i o e|i up|e|c t e|c t|c b|e c p b| |]; try (cbn [sneed]; apply need_pos); try (cbn [sneed]; lia).
   - rewrite sneed_SIf. pose proof (need_pos c). lia.
   - rewrite sneed_SIf1. pose proof (need_pos c). lia.
   - rewrite sneed_SWhile. pose proof (need_pos c). lia.
+  - rewrite sneed_SFor. pose proof (need_pos c). lia.
 Qed.
 
 Lemma embed_is_expression names e : is_expression (embed names e) = true.
@@ -103,6 +121,29 @@ Lemma run_SWhile n rho c b : run_stmt (S n) rho (SWhile c b) =
   end.
 Proof. reflexivity. Qed.
 
+Lemma run_SFor n rho e c p b : run_stmt (S n) rho (SFor e c p b) =
+  match sev rho e with
+  | inl v => option_map (trunc (length rho)) (loop3 (run_stmt n) c p b n (rho ++ [v]))
+  | inr x => Some (inr (StErr x))
+  end.
+Proof. reflexivity. Qed.
+Lemma loop3_S n c p b k rho : loop3 (run_stmt n) c p b (S k) rho =
+  match sev rho c with
+  | inl vc => if struthy vc then
+                match run_blk n rho b with
+                | Some (inl (rho1, _)) | Some (inr (StCont rho1)) =>
+                    match run_stmt n rho1 p with
+                    | Some (inl (rho2, _)) => loop3 (run_stmt n) c p b k rho2
+                    | other => other
+                    end
+                | Some (inr (StBrk rho1)) => Some (inl (rho1, VNil))
+                | other => other
+                end
+              else Some (inl (rho, VNil))
+  | inr x => Some (inr (StErr x))
+  end.
+Proof. reflexivity. Qed.
+
 (* ---------------------------------------------------------------- emitted code *)
 Lemma scode_single k scope base s : scode k scope base [s] =
   let '(c, ks) := stmt_code k scope base s in (c ++ (if is_expr_stmt s then [] else I [opNil]), ks).
@@ -133,6 +174,19 @@ Lemma code_SWhile k scope base c b : stmt_code k scope base (SWhile c b) =
   let inner := I cc ++ I [opPopJumpForwardIfFalse; (nlen cb + 6)%N] ++ cb ++ I [opPopTop] in
   let jb := nlen inner in
   (patch 0 (jb + 2) jb inner ++ I [opJumpBackward; jb; opNop], kc ++ kb).
+Proof. reflexivity. Qed.
+
+Lemma code_SFor k scope base e c p b : stmt_code k scope base (SFor e c p b) =
+  let '(ci, ki) := cexp_at (slot_of scope) base e in
+  let sc1 := scope ++ [k] in
+  let '(cc, kc) := cexp_at (slot_of sc1) (base + length ki) c in
+  let '(cb, kb) := block_code (S k) sc1 (base + length ki + length kc) b in
+  let '(cp, kp) := stmt_code (S k) sc1 (base + length ki + length kc + length kb) p in
+  let head := I cc ++ I [opPopJumpForwardIfFalse; (nlen cb + 1 + nlen cp + 2 + 2)%N] in
+  let cont := (nlen head + nlen cb + 1)%N in
+  let jb := (cont + nlen cp)%N in
+  (I (ci ++ [opStoreGlobal; N.of_nat k]) ++ patch 0 (jb + 2) cont (head ++ cb ++ I [opPopTop] ++ cp) ++ I [opJumpBackward; jb],
+   ki ++ kc ++ kb ++ kp).
 Proof. reflexivity. Qed.
 
 (* ---------------------------------------------------------------- assignment *)
@@ -194,10 +248,84 @@ Proof.
   apply trunc_lenb; [exact (run_list_length n Hn l rho VNil r0 E)|reflexivity].
 Qed.
 
+(* a post statement changes one variable: it ends normally with as many variables, or with an error *)
+Definition same_len (rho : list sval) (r : (list sval * sval) + stop) : Prop :=
+  match r with
+  | inl (rho', v) => length rho' = length rho /\ v = VNil
+  | inr (StErr _) => True
+  | inr _ => False
+  end.
+Lemma simple_res n rho p r : is_simple p = true -> run_stmt n rho p = Some r -> same_len rho r.
+Proof.
+  intros Hs Hr. destruct n as [|n]; [discriminate|].
+  destruct p as [e|i e|i o e|i up|e|c t e|c t|c b|e c p b| |]; try discriminate; cbn [run_stmt] in Hr.
+  - destruct (sev rho e); inversion Hr; cbn [same_len]; [split; [apply set_nth_length|reflexivity]|exact Logic.I].
+  - destruct (sev rho e); [|inversion Hr; exact Logic.I].
+    destruct (sbin o (nth i rho VNil) s); inversion Hr; cbn [same_len]; [split; [apply set_nth_length|reflexivity]|exact Logic.I].
+  - destruct (sbin BAdd (nth i rho VNil) (VInt (if up then 1%Z else (-1)%Z))); inversion Hr; cbn [same_len];
+      [split; [apply set_nth_length|reflexivity]|exact Logic.I].
+Qed.
+(* so do the rounds of a three-clause loop *)
+Lemma loop3_res n c p b : length_ok n -> is_simple p = true -> forall k rho r,
+  loop3 (run_stmt n) c p b k rho = Some r -> same_len rho r.
+Proof.
+  intros Hn Hs. induction k as [|k IH]; intros rho r Hr; [discriminate|].
+  rewrite loop3_S in Hr. destruct (sev rho c) as [vc|x]; [|inversion Hr; exact Logic.I].
+  destruct (struthy vc); [|inversion Hr; split; reflexivity].
+  assert (Hgo : forall rho1, length rho1 = length rho ->
+            match run_stmt n rho1 p with Some (inl (rho2, _)) => loop3 (run_stmt n) c p b k rho2 | other => other end = Some r ->
+            same_len rho r).
+  { intros rho1 Hl1 H. destruct (run_stmt n rho1 p) as [rp|] eqn:Ep; [|discriminate].
+    pose proof (simple_res n rho1 p rp Hs Ep) as Hp.
+    destruct rp as [[rho2 v2]|[x|rho2|rho2]]; cbn [same_len] in Hp; try contradiction.
+    - pose proof (IH rho2 r H) as H2. destruct Hp as [Hp _].
+      destruct r as [[rho3 v3]|[x|rho3|rho3]]; cbn [same_len] in *; try exact H2. destruct H2 as [H2 H3]. split; [congruence|exact H3].
+    - inversion H; exact Logic.I. }
+  destruct (run_blk n rho b) as [[[rho1 v1]|[x|rho1|rho1]]|] eqn:E; try discriminate;
+    try (pose proof (run_blk_length n Hn b rho _ E) as Hl; cbn [lenb_ok] in Hl).
+  - exact (Hgo rho1 Hl Hr).
+  - inversion Hr; exact Logic.I.
+  - inversion Hr; subst r. split; [exact Hl|reflexivity].
+  - exact (Hgo rho1 Hl Hr).
+Qed.
+
+(* whatever the post statement is, the rounds never lose a variable *)
+Lemma loop3_len n c p b : length_ok n -> forall k rho r, loop3 (run_stmt n) c p b k rho = Some r -> lens_ok rho r.
+Proof.
+  intros Hn. induction k as [|k IH]; intros rho r Hr; [discriminate|].
+  rewrite loop3_S in Hr. destruct (sev rho c) as [vc|x]; [|inversion Hr; exact Logic.I].
+  destruct (struthy vc); [|inversion Hr; cbn; lia].
+  assert (Hgo : forall rho1, length rho1 = length rho ->
+            match run_stmt n rho1 p with Some (inl (rho2, _)) => loop3 (run_stmt n) c p b k rho2 | other => other end = Some r ->
+            lens_ok rho r).
+  { intros rho1 Hl1 H. destruct (run_stmt n rho1 p) as [rp|] eqn:Ep; [|discriminate].
+    pose proof (Hn rho1 p rp Ep) as Hp.
+    destruct rp as [[rho2 v2]|[x|rho2|rho2]]; cbn [len_ok] in Hp.
+    - pose proof (IH rho2 r H) as H2.
+      assert (Hle : length rho <= length rho2) by (rewrite Hp, <- Hl1; destruct p; cbn [next_n]; lia).
+      destruct r as [[rho3 v3]|[x|rho3|rho3]]; cbn [lens_ok] in *; lia.
+    - inversion H; exact Logic.I.
+    - inversion H; subst r. cbn [lens_ok]. lia.
+    - inversion H; subst r. cbn [lens_ok]. lia. }
+  destruct (run_blk n rho b) as [[[rho1 v1]|[x|rho1|rho1]]|] eqn:E; try discriminate;
+    try (pose proof (run_blk_length n Hn b rho _ E) as Hl; cbn [lenb_ok] in Hl).
+  - exact (Hgo rho1 Hl Hr).
+  - inversion Hr; exact Logic.I.
+  - inversion Hr; subst r. cbn [lens_ok]. lia.
+  - exact (Hgo rho1 Hl Hr).
+Qed.
+
 Lemma run_stmt_length : forall n, length_ok n.
 Proof.
   induction n as [|n IH]; intros rho s r Hr; [discriminate|].
-  destruct s as [e|i e|i o e|i up|e|c t e|c t|c b| |].
+  destruct s as [e|i e|i o e|i up|e|c t e|c t|c b|e c p b| |].
+  11:{ cbn [run_stmt] in Hr. inversion Hr. reflexivity. }
+  10:{ cbn [run_stmt] in Hr. inversion Hr. reflexivity. }
+  9:{ rewrite run_SFor in Hr. destruct (sev rho e) as [v|x]; [|inversion Hr; exact Logic.I].
+      destruct (loop3 (run_stmt n) c p b n (rho ++ [v])) as [r0|] eqn:E; [|discriminate]. cbn [option_map] in Hr. inversion Hr; subst r.
+      pose proof (loop3_len n c p b IH n (rho ++ [v]) r0 E) as Hl. rewrite ?app_length in Hl.
+      destruct r0 as [[rho1 v1]|[x|rho1|rho1]]; cbn [trunc len_ok next_n lens_ok] in *; try exact Logic.I;
+        rewrite app_length in Hl; cbn [length] in Hl; rewrite firstn_length; lia. }
   - cbn [run_stmt] in Hr. destruct (sev rho e); inversion Hr; cbn [len_ok next_n]; [rewrite app_length; cbn; lia|exact Logic.I].
   - cbn [run_stmt] in Hr. destruct (sev rho e); inversion Hr; cbn [len_ok next_n]; [apply set_nth_length|exact Logic.I].
   - cbn [run_stmt] in Hr. destruct (sev rho e); [|inversion Hr; exact Logic.I].
@@ -223,8 +351,6 @@ Proof.
     + pose proof (run_blk_length n IH b rho _ E) as Hl. cbn [lenb_ok] in Hl.
       pose proof (IH rho1 (SWhile c b) r Hr) as H2.
       destruct r as [[rho2 v2]|[x|rho2|rho2]]; cbn [len_ok next_n] in *; congruence.
-  - cbn [run_stmt] in Hr. inversion Hr. reflexivity.
-  - cbn [run_stmt] in Hr. inversion Hr. reflexivity.
 Qed.
 
 Lemma run_stmts_length n l rho last r : run_stmts n rho l last = Some r -> lens_ok rho r.
@@ -236,7 +362,21 @@ Proof. apply run_blk_length. apply run_stmt_length. Qed.
 Lemma run_stmt_value : forall n rho s rho' v, run_stmt n rho s = Some (inl (rho', v)) -> is_expr_stmt s = false -> v = VNil.
 Proof.
   induction n as [|n IH]; intros rho s rho' v Hr Hx; [discriminate|].
-  destruct s as [e|i e|i o e|i up|e|c t e|c t|c b| |]; try discriminate.
+  destruct s as [e|i e|i o e|i up|e|c t e|c t|c b|e c p b| |]; try discriminate.
+  6:{ (* the value of a three-clause loop: that of its last round *)
+      rewrite run_SFor in Hr. destruct (sev rho e) as [v0|x]; [|discriminate].
+      destruct (loop3 (run_stmt n) c p b n (rho ++ [v0])) as [r0|] eqn:E; [|discriminate]. cbn [option_map] in Hr.
+      assert (Hv : forall k rho1 rho2 v2, loop3 (run_stmt n) c p b k rho1 = Some (inl (rho2, v2)) -> v2 = VNil).
+      { induction k as [|k IHk]; intros rho1 rho2 v2 H; [discriminate|].
+        rewrite loop3_S in H. destruct (sev rho1 c) as [vc|x]; [|discriminate].
+        destruct (struthy vc); [|inversion H; reflexivity].
+        assert (Hgo : forall rho3, match run_stmt n rho3 p with Some (inl (rho4, _)) => loop3 (run_stmt n) c p b k rho4 | other => other end
+                                   = Some (inl (rho2, v2)) -> v2 = VNil).
+        { intros rho3 H3. destruct (run_stmt n rho3 p) as [[[rho4 v4]|x]|] eqn:Ep; try discriminate.
+          exact (IHk rho4 rho2 v2 H3). }
+        destruct (run_blk n rho1 b) as [[[rho3 v3]|[x|rho3|rho3]]|]; try discriminate.
+        - exact (Hgo rho3 H). - inversion H; reflexivity. - exact (Hgo rho3 H). }
+      destruct r0 as [[rho1 v1]|[x|rho1|rho1]]; cbn [trunc] in Hr; inversion Hr; subst. exact (Hv n _ _ _ E). }
   - cbn [run_stmt] in Hr. destruct (sev rho e); inversion Hr. reflexivity.
   - cbn [run_stmt] in Hr. destruct (sev rho e); inversion Hr. reflexivity.
   - cbn [run_stmt] in Hr. destruct (sev rho e); [|discriminate]. destruct (sbin o (nth i rho VNil) s); inversion Hr. reflexivity.
@@ -268,7 +408,12 @@ Proof.
   assert (Hblk : forall l rho0 r0 k0, wf_stmts false k0 l = true -> run_blk n rho0 l = Some r0 -> no_ctl r0).
   { intros l rho0 r0 k0 Hw H0. unfold run_blk in H0. destruct (run_stmts n rho0 l VNil) as [r1|] eqn:E; [|discriminate].
     cbn in H0. inversion H0; subst r0. apply no_ctl_trunc. exact (Hlist l rho0 VNil r1 k0 Hw E). }
-  destruct s as [e|i e|i o e|i up|e|c t e|c t|c b| |].
+  destruct s as [e|i e|i o e|i up|e|c t e|c t|c b|e c p b| |].
+  9:{ rewrite wf_SFor in Hwf. repeat (apply andb_true_iff in Hwf; destruct Hwf as [Hwf ?]).
+      rewrite run_SFor in Hr. destruct (sev rho e) as [v0|x]; [|inversion Hr; exact Logic.I].
+      destruct (loop3 (run_stmt n) c p b n (rho ++ [v0])) as [r0|] eqn:E; [|discriminate]. cbn [option_map] in Hr. inversion Hr; subst r.
+      pose proof (loop3_res n c p b (run_stmt_length n) ltac:(assumption) n _ _ E) as Hres.
+      destruct r0 as [[rho1 v1]|[x|rho1|rho1]]; cbn [same_len trunc no_ctl] in *; try contradiction; exact Logic.I. }
   - cbn [run_stmt] in Hr. destruct (sev rho e); inversion Hr; exact Logic.I.
   - cbn [run_stmt] in Hr. destruct (sev rho e); inversion Hr; exact Logic.I.
   - cbn [run_stmt] in Hr. destruct (sev rho e); [|inversion Hr; exact Logic.I]. destruct (sbin o (nth i rho VNil) s); inversion Hr; exact Logic.I.
